@@ -62,6 +62,28 @@ type eqCh struct {
 	N int
 }
 
+// three different struct types that all print as "main.Spec" (declared in
+// three function scopes): whatever is remembered per type must not be
+// remembered per type NAME
+func eqLocal1() reflect.Type {
+	type Spec struct{ Host string }
+	return reflect.TypeOf(Spec{})
+}
+func eqLocal2() reflect.Type {
+	type Spec struct {
+		Host string
+		Port int
+	}
+	return reflect.TypeOf(Spec{})
+}
+func eqLocal3() reflect.Type {
+	type Spec struct {
+		token string
+		Host  string
+	}
+	return reflect.TypeOf(Spec{})
+}
+
 var eqTypes = map[int]reflect.Type{
 	0: reflect.TypeOf(int(0)), 1: reflect.TypeOf(int8(0)), 4: reflect.TypeOf(int64(0)),
 	11: reflect.TypeOf(uint8(0)), 14: reflect.TypeOf(uint64(0)),
@@ -84,6 +106,7 @@ var eqTypes = map[int]reflect.Type{
 	160: reflect.TypeOf(eqS1{}), 161: reflect.TypeOf(eqS2{}), 162: reflect.TypeOf(eqS3{}), 163: reflect.TypeOf(eqP1{}),
 	164: reflect.TypeOf(eqN{}), 165: reflect.TypeOf(eqWithEmb{}), 166: reflect.TypeOf(struct{}{}), 167: reflect.TypeOf(eqP2{}),
 	168: reflect.TypeOf(EqEmb{}), 169: reflect.TypeOf(eqCh{}),
+	170: eqLocal1(), 171: eqLocal2(), 172: eqLocal3(),
 
 	180: reflect.TypeOf((func(int) int)(nil)), 181: reflect.TypeOf((func(string) int)(nil)), 182: reflect.TypeOf((func())(nil)),
 	190: reflect.TypeOf((chan int)(nil)), 191: reflect.TypeOf((chan string)(nil)),
@@ -1149,7 +1172,7 @@ func genEqual(ctx *Ctx, emit func(any, string)) {
 	// values at the same position: only "equal or not" matters)
 	{
 		var samples []*Node
-		for _, tag := range []int{0, 1, 21, 30, 31, 100, 102, 103, 104, 120, 123, 140, 142, 144, 160, 161, 163, 164, 166, 167, 169, 180, 182, 190} {
+		for _, tag := range []int{0, 1, 21, 30, 31, 100, 102, 103, 104, 120, 123, 140, 142, 144, 160, 161, 163, 164, 166, 167, 169, 170, 171, 172, 180, 182, 190} {
 			g := &eqGen{r: &Rng{s: uint64(tag*131 + 5)}}
 			samples = append(samples, g.value(eqTypes[tag]))
 		}
